@@ -15,6 +15,7 @@ import Ivy.Drv.Signal
 import Ivy.Drv.Raw
 import Ivy.Drv.FdPoll
 import Ivy.Drv.FdEpoll
+import Ivy.Drv.TimeArith
 
 def main (args : List String) : IO UInt32 := do
   match args with
@@ -35,4 +36,5 @@ def main (args : List String) : IO UInt32 := do
   | ["raw"] => Ivy.Drv.Raw.run; return 0
   | ["fdpoll"] => Ivy.Drv.FdPoll.run; return 0
   | ["fdepoll"] => Ivy.Drv.FdEpoll.run; return 0
+  | ["timearith"] => Ivy.Drv.TimeArith.run; return 0
   | _ => IO.eprintln "usage: ivyreplay <component>"; return 2
